@@ -222,6 +222,7 @@ type r2pState struct {
 	// R-rebuild-all-paths
 	atoms map[types.Object]r2pAtoms
 	elems map[types.Object][]r2pElem
+	bare  map[types.Object]r2pAtoms // R-rebuild-delimiters: parts of the input held outside any delimiting position
 }
 
 type r2pGuardRec struct {
@@ -236,7 +237,7 @@ func r2pNewState() *r2pState {
 		must: map[ast.Stmt]bool{}, entered: map[ast.Stmt]bool{},
 		tmpl: map[types.Object]r2pTmpl{}, ctrl: map[string]bool{}, kind: map[string]*travStruct{},
 		insp: map[string]bool{}, callVar: map[types.Object]*ast.CallExpr{}, acc: map[types.Object]map[string]bool{},
-		atoms: map[types.Object]r2pAtoms{}, elems: map[types.Object][]r2pElem{}}
+		atoms: map[types.Object]r2pAtoms{}, elems: map[types.Object][]r2pElem{}, bare: map[types.Object]r2pAtoms{}}
 }
 
 func r2pCopyMap[K comparable, V any](m map[K]V) map[K]V {
@@ -252,7 +253,7 @@ func r2pClone(s *r2pState) *r2pState {
 		must: r2pCopyMap(s.must), entered: r2pCopyMap(s.entered), trace: append([]string(nil), s.trace...),
 		tmpl: r2pCopyMap(s.tmpl), ctrl: r2pCopyMap(s.ctrl), kind: r2pCopyMap(s.kind), guards: append([]r2pGuardRec(nil), s.guards...),
 		insp: r2pCopyMap(s.insp), sawAbs: s.sawAbs, callVar: r2pCopyMap(s.callVar), acc: r2pCopyMap(s.acc),
-		atoms: r2pCopyMap(s.atoms), elems: r2pCopyMap(s.elems)}
+		atoms: r2pCopyMap(s.atoms), elems: r2pCopyMap(s.elems), bare: r2pCopyMap(s.bare)}
 }
 
 // feasible: every synthetic "non-empty" decision was followed by entering the loop.
